@@ -109,6 +109,47 @@ theorem finalize_enough_fuel (fs : FS) (l : List Entry) (h : FinOK fs l) (fuel :
     finalizeFuel fuel fs l = (finalizeAll fs l, []) :=
   finalizeFuel_enough l fuel fs h.mode_ok hf
 
+/-! ## clause 3 (continued): exactly what was written for it -/
+
+/-- **Deferred = direct.**  After any history of opens in the modes `r`, `w`, `a`, `w+` on an empty writer, a
+complete `write()` leaves every non-temporary name `p` — destination or not — with exactly the contents that
+performing the same opens and writes directly with the builtin `open` would have left there (so: what was
+written for it, appended to the old contents in append mode).  Excluded are only the names that are a backup
+name of a pending destination and did not exist before (these are the backup copies, which writing directly
+does not make). -/
+theorem finalize_matches_direct (fs0 : FS) (ops : List OpenReq) (h0 : NoTmp fs0)
+    (hu : ∀ o ∈ ops, o.1.isTmp = false ∧ o.2.1.plain = true)
+    (p : Path) (hp : p.isTmp = false)
+    (hpb : get fs0 p ≠ none ∨ ∀ e ∈ (runOpens (init fs0) ops).pending, ∀ n, p ≠ .bak e.dest n) :
+    get (finalizeAll (runOpens (init fs0) ops).fs (runOpens (init fs0) ops).pending) p
+      = get (directRun fs0 ops) p := by
+  have hwf : WF (runOpens (init fs0) ops) := reachable_wf fs0 ops h0 (fun o ho => (hu o ho).1)
+  have hsame : get (runOpens (init fs0) ops).fs p = get fs0 p := deferred_untouched _ _ _ hp
+  have tr := tracks_run ops (init_wf h0) (tracks_init fs0) hu p hp
+  cases hf : findEntry (runOpens (init fs0) ops).pending p with
+  | none =>
+    rw [hf] at tr
+    simp only [] at tr
+    rw [tr, ← hsame]
+    apply nothing_else_changes _ _ hwf.finOK
+    · intro e he
+      refine ⟨fun hh => (findEntry_none.1 hf) (hh ▸ mem_map_dest he), ne_tmp_of_user hp _⟩
+    · rw [hsame]; exact hpb
+  | some e =>
+    rw [hf] at tr
+    simp only [] at tr
+    obtain ⟨he, hd⟩ := findEntry_some hf
+    obtain ⟨t, ht⟩ := Option.ne_none_iff_exists'.1 (hwf.tmp_exists e.tmp (mem_map_tmp he))
+    subst hd
+    rcases mode_cases (hwf.mode_ok e he) with hw | ha
+    · rw [if_pos hw] at tr
+      rw [tr, ht]
+      exact finalize_content_write _ _ hwf.finOK e he hw t ht
+    · have hw : ¬ e.mode.writeish = true := by rw [ha]; decide
+      rw [if_neg hw] at tr
+      rw [tr, ht, ← hsame]
+      exact finalize_content_append _ _ hwf.finOK e he ha t ht (by rw [hsame]; exact hpb)
+
 /-! ## clause 4: interrupted finalisation -/
 
 /-- `q` is the destination of a pending append-mode entry -/
@@ -216,6 +257,7 @@ example : get (finalizeAll exSt.fs exSt.pending) (.bak (.base "a") 1) = some ['b
 example : get (finalizeAll exSt.fs exSt.pending) (.base "b") = some ['p','q'] := by decide
 example : get (finalizeAll exSt.fs exSt.pending) (.tmp 0) = none := by decide
 -- … and it agrees with writing directly
+example : ∀ o ∈ exOps, o.1.isTmp = false ∧ o.2.1.plain = true := by decide
 example : get (finalizeAll exSt.fs exSt.pending) (.base "a") = get (directRun exFs exOps) (.base "a")
     ∧ get (finalizeAll exSt.fs exSt.pending) (.base "b") = get (directRun exFs exOps) (.base "b") := by decide
 -- interrupted after the backup move, before the temporary file is moved in: "old" is found at #a.2#
